@@ -1022,8 +1022,22 @@ def _token_switches(F, body, du):
         src = Q.value_source(body, du, {'cp': {'l': pl['l']}})
         if src is None or not Q.callee_is(src, TOKEN_PRODUCERS):
             continue
-        out.append((u, ec[1], src))
-    return out
+        out.append((u, ec[1], src, pl))
+    # a second test of the same token that is reached only on a not-a-word edge of an earlier one (`if let Token(_) = t.id {..; continue}
+    # match t.id {..}`) has no feasible word edge
+    producers = {b for b, t in Q.find_calls(body, TOKEN_PRODUCERS)}
+    keep = []
+    for u, labels, src, pl in out:
+        dead = False
+        for u2, labels2, src2, pl2 in out:
+            if u2 == u or pl2 != pl or not body.dominates(u2, u):
+                continue
+            word_edges = {tgt for tgt, labs in labels2.items() if ('variant', 'Token') in labs}
+            if word_edges and all(u not in body.reachable(tgt, removed=producers) for tgt in word_edges):
+                dead = True
+        if not dead:
+            keep.append((u, labels, src))
+    return keep
 
 
 def _dead_else_edges(F, body, du):
